@@ -65,6 +65,8 @@ var registry = map[string]propCfg{
 	"C01": chainProp("one case = a seeded block stream (transfers of every amount class incl. bad signatures, IBTP requests/receipts with valid/duplicate/skipped/zero/huge/old indices, timeouts, invalid proofs, wrong senders, empty blocks; drawn genesis: 1-4 admins, gas price, audit on/off) executed on 3-4 independent replicas that differ in proof-verification mode, LRU sizes and stop/reopen points; after every block block hash, all roots, every marshalled receipt, the delivery metadata and the whole state store are compared byte for byte", 600, 60000),
 	"C02": chainProp("one case = a seeded block stream dominated by IBTP requests/receipts over several ordered service pairs with next/duplicate/skipped/zero/huge/old indices, invalid proofs, wrong senders and unrelated transfers, audit on/off; a history oracle over receipts (accepted := receipt SUCCESS) checks index order, exactly-once acceptance, counters returned by the interchain query on both sides, delivery-set membership, and (twin replica) that rejected IBTPs change nothing", 800, 80000),
 	"C03": chainProp("one case = a seeded block stream of IBTPs against appchains bound to a drawn master rule (Happy, a WASM rule accepting iff proof[0]&1, FabricSim with garbage proofs) and, optionally, IBTPs relayed from another BitXHub with n in {1,3,4,7} registered validators signed by 0..n+1 distinct/duplicate/unregistered keys; proofs valid, refused by the rule (plain false or error), absent or hash-mismatched; the same IBTPs also submitted as plain invocations of HandleIBTPData/HandleIBTP by outsiders, chain admins and governance admins; the harness judges validity itself (hash matches and rule predicate by construction, or distinct registered signers > (n-1)/3): invalid => receipt FAILED and (twin replica) no state change, a plain invocation never processes an IBTP, and verification never kills the node (worker death is attributed to the run)", 800, 80000),
+	"C15": chainProp("one case = a seeded block stream of governance operations (freeze/activate/logout of appchains and services by the permitted and by wrong roles), votes (approve/reject/garbage; by every administrator, by non-administrators, repeated, on open, finished and unknown proposals) and IBTP traffic, under 1-4 super administrators and a drawn strategy expression (a > 0.5*t, a >= t, a >= 1, a - r >= 2, a >= 0.75*t); an independent tally of the accepted votes is compared with GetProposal after every block: one counted vote per administrator, no vote by non-administrators / on finished proposals / with garbage, approved => the recorded expression holds for the distinct approvers (evaluated by the harness with govaluate against the initial or the available electorate), rejected by tally => approval unreachable, special proposals need a super administrator's vote, and a concluded proposal record never changes again", 800, 80000),
+	"C16": chainProp("one case = a seeded block stream interleaving lifecycle operations and votes on appchains and services with IBTP requests/receipts before, during and after each transition; after every block the status of every appchain and service is read through GetAppchain/GetServiceInfo and checked: a status changes only in a block containing a successful operation on the object, a concluding vote on it or an operation on its appchain; forbidden is absorbing; a frozen or logged-out appchain has no usable service; in blocks without governance transactions a request from a service whose status is frozen/forbidden/pause/registering/unavailable is never accepted and one to such a destination is never recorded for execution (rejected or begin-failed)", 800, 80000),
 	"C17": chainProp("one case = a seeded block stream of direct invocations of contract methods, the dispatch surface being enumerated by reflection over the contracts the executor registered (every exported method incl. methods promoted from the embedded stub; counted in the evidence), called by an outsider, the chain's admin, another chain's admin, a governance admin and the node account, with arguments typed by the method signature and drawn from the run's live identifiers and garbage, audit on/off, interleaved with IBTP traffic; oracles: methods the statement reserves for contract-to-contract use must fail, chain-admin/governance-admin operations must fail for an outsider, and (twin replica, for failed and successful calls alike) refused calls change nothing, read methods write nothing, and no outsider call changes existing interchain counters or records", 800, 80000),
 	"C04": chainProp("one case = a seeded block stream of one-to-one IBTP traffic with receipts success/failure/rollback, timeouts 0..5 blocks, receipts before, in and after the expiry block and after final states, empty blocks; a reference status machine written from the statement is folded over the accepted events and block heights and compared with GetStatus after every block", 800, 80000),
 	"C05": chainProp("one case = a seeded block stream with one-to-many groups of 2-4 children declared over one or two destination chains (3 appchains), children begun and reported in any order, with success/failure/rollback receipts, group timeouts 0/2/3/5, duplicate and late child messages, several groups interleaved and one-to-one traffic in between; a reference group model from the statement is compared after every block with the stored group record (global and child statuses) and with the block's multi-transaction and timeout notification sets", 800, 80000),
